@@ -557,7 +557,7 @@ func runC07(seed uint64, n int, tier string, outDir string) []*Stats {
 
 	// --- the real ChunkBuilder with a non-nil input source map vs BuilderIn.v
 	var biItems []string
-	for i := 0; i < n/4; i++ {
+	for i := 0; i < n/6; i++ {
 		biItems = append(biItems, genBuilderInCase(r, st))
 	}
 	cf.AddCases("builderin_cases", "bytes * list (list Z) * list Z * list (Z * Z * bytes) * bytes * bytes * Z * list Z * list Z * bool * Z * bool", "check_builderin", biItems)
